@@ -69,7 +69,12 @@ EXTRA_STEPS = [("d", "$b", "x"), ("d", "${a}", "y"), ("d", "$$a", "x"),
                ("d", "b\u0130", "y"), ("d", "a\xe9", "x"),
                ("u", "a\u212a"), ("u", "{a\u017f}"), ("u", "b\u0131 t"),
                ("u", "a\xe9"), ("u", "\u212a"), ("d", "a", "$b\u017f"),
-               ("d", "\u212a", "x"), ("u", "k")]
+               ("d", "\u212a", "x"), ("u", "k"),
+               # ASCII neighbours of the letter ranges are no name characters
+               ("d", "^a", "x"), ("d", "[b", "y"), ("d", "a^", "x"),
+               ("d", "`a", "x"), ("d", "b]", "y"), ("d", "a\\b", "x"),
+               ("u", "{^a}"), ("u", "{a^}"), ("u", "{[b}"), ("u", "a[0]"),
+               ("d", "@a", "x")]
 BOUND = {"quick": 2, "thorough": 3}
 RANDOM = {"quick": 4000, "thorough": 100000}
 
